@@ -601,6 +601,10 @@ def gen_group(r, n_atoms, pool, opts, size=None, allow_dummy=True, allow_center=
         if r.random() < 0.5:
             fit = r.sample(range(n_atoms), r.choice([1, 2, 3]))
         nref = len(fit) if fit is not None else len(ids)
+        if r.random() < 0.5:
+            # the documented short forms: fewer reference positions than fitted atoms (a single triplet in particular);
+            # only their centre matters for centerToReference without rotation, the fit term is still -(1/N_fit) sum grad
+            nref = 1 if r.random() < 0.6 else r.randint(1, nref)
         ref = [tuple(V.dyadic(r, -2, 2, bits=3) for _ in range(3)) for _ in range(nref)]
         origin = r.random() < 0.25
         # atom_group::center_ref_pos: sum / n
@@ -673,17 +677,16 @@ PERIODIC = {"dihedral": 360.0, "polarPhi": 360.0}
 
 
 def var_period(v):
-    """colvar::init: the restraint metric of a homogeneous variable is that of its first component"""
+    """colvar::init / colvar::dist2: a variable is periodic (and uses the periodic metric of its first component) iff it
+    is homogeneous and ALL its components are periodic with the same period (after repair 88e52a0e of /repo main: a sum of
+    components of different periodicity no longer inherits the period of cvcs[0]; it uses the plain difference)"""
     if v.get("vec"):
         return 0.0
     if v.get("period"):
         return v["period"]
     homog = all(c.get("exp", 1) == 1 and abs(abs(c.get("coeff", 1.0)) - 1.0) < 1e-10 for c in v["cvcs"])
-    # colvar::init_components walks global_cvc_map (a std::map keyed by the configuration keyword), so cvcs[0] is the
-    # component with the alphabetically first keyword (config order among components of the same keyword)
-    first = min(v["cvcs"], key=lambda c: KINDS[c["kind"]][0])
-    if homog and first["kind"] in PERIODIC:
-        return PERIODIC[first["kind"]]
+    if homog and all(c["kind"] in PERIODIC for c in v["cvcs"]) and len(set(PERIODIC[c["kind"]] for c in v["cvcs"])) == 1:
+        return PERIODIC[v["cvcs"][0]["kind"]]
     return 0.0
 
 
@@ -1071,8 +1074,13 @@ def gen_unmodelled(r, n):
              "meta_nogrid", "opes_frozen", "abmd", "histogramRestraint", "distanceZ_periodic", "dihedral_walls", "mapTotal"]
     cell_names = ["cell_distanceVec", "cell_distanceDir", "cell_distancePairs", "cell_distancePairs_linear", "cell_histogramRestraint",
                   "cell_groupCoord", "cell_hBond", "cell_poly_two_biases", "cell_center_distanceVec", "cell_meta_nogrid",
-                  "center_distancePairs", "rot_distancePairs", "distancePairs_linear"]
+                  "center_distancePairs", "rot_distancePairs", "distancePairs_linear",
+                  "center1_distanceVec", "center1_fit_distanceDir", "center1_distancePairs",
+                  "rmsd_perm", "lincomb_coordNum", "lincomb_selfCoordNum", "distanceZ2_period"]
     names = names + cell_names
+    only = os.environ.get("C01_ONLY")          # debugging aid: restrict the sweep to kinds containing this text
+    if only:
+        names = [x for x in names if only in x] or names
     for i in range(n):
         name = names[i % len(names)] if i < 3 * len(names) else r.choice(names)
         full_name = name
@@ -1135,6 +1143,44 @@ def gen_unmodelled(r, n):
             touched = sorted(set(ids[:2] + oth2))
             conf = ("colvar {\n  name v0\n  distancePairs {\n    group1 {\n      atomNumbers %s\n    }\n    group2 {\n      atomNumbers %s\n    }\n  }\n}\n"
                     "linear {\n  colvars v0\n  centers (1.0, 2.0, 3.0, 2.5)\n  forceConstant 2.0\n}" % (ids_str(ids[:2]), ids_str(oth2)))
+        elif name == "rmsd_perm":
+            touched = sorted(ids)
+            # several alternative orderings, so that the original one is rarely the closest (the defect repaired on
+            # fix-C01-4 only shows when another ordering wins)
+            perms = []
+            for sw in ([(0, 1)], [(2, 3)], [(0, 1), (2, 3)], [(0, 2)], [(1, 3)]):
+                perm = list(ids)
+                for (i1, i2) in sw:
+                    perm[i1], perm[i2] = perm[i2], perm[i1]
+                perms.append("    atomPermutation %s\n" % ids_str(perm))
+            conf = ("colvar {\n  name v0\n  rmsd {\n    atoms {\n      atomNumbers %s\n    }\n    refPositions %s\n%s  }\n}\n%s"
+                    % (ids_str(ids), refpos_str(r, 4), "".join(perms), harm))
+        elif name == "lincomb_coordNum":
+            touched = sorted(set(ids[:2] + oth2))
+            conf = ("colvar {\n  name v0\n  linearCombination {\n    coordNum {\n      componentCoeff 2.0\n      group1 {\n        atomNumbers %s\n      }\n      group2 {\n        atomNumbers %s\n      }\n      cutoff 3.0\n    }\n"
+                    "    distance {\n      componentCoeff 0.5\n      group1 {\n        atomNumbers %s\n      }\n      group2 {\n        atomNumbers %s\n      }\n    }\n  }\n}\n%s"
+                    % (ids_str(ids[:2]), ids_str(oth2), ids_str(ids[:1]), ids_str(oth2[:1]), harm))
+        elif name == "lincomb_selfCoordNum":
+            touched = sorted(ids)
+            conf = ("colvar {\n  name v0\n  linearCombination {\n    selfCoordNum {\n      group1 {\n        atomNumbers %s\n      }\n      cutoff 3.0\n    }\n  }\n}\n%s"
+                    % (ids_str(ids), harm))
+        elif name == "distanceZ2_period":
+            touched = sorted(set(ids[:3] + oth2))
+            conf = ("colvar {\n  name v0\n  distanceZ {\n    main {\n      atomNumbers %s\n    }\n    ref {\n      atomNumbers %d\n    }\n    ref2 {\n      atomNumbers %s\n    }\n    period %r\n  }\n}\n"
+                    "harmonic {\n  colvars v0\n  centers 0.25\n  forceConstant 2.0\n}" % (ids_str(ids[:2]), ids[2] + 1, ids_str(oth2), r.choice([1.0, 2.0, 1.5])))
+        elif name == "center1_distanceVec":
+            touched = sorted(set(ids[:3] + oth2))
+            conf = ("colvar {\n  name v0\n  distanceVec {\n    group1 {\n      atomNumbers %s\n      centerToReference on\n      refPositions %s\n    }\n    group2 {\n      atomNumbers %s\n    }\n  }\n}\n"
+                    "harmonic {\n  colvars v0\n  centers (1.0, -0.5, 0.25)\n  forceConstant 2.0\n}" % (ids_str(ids[:3]), refpos_str(r, 1), ids_str(oth2)))
+        elif name == "center1_fit_distanceDir":
+            fitg = r.sample(others, 3) if len(others) >= 3 else others
+            touched = sorted(set(ids[:2] + fitg + oth2))
+            conf = ("colvar {\n  name v0\n  distanceDir {\n    group1 {\n      atomNumbers %s\n      centerToReference on\n      refPositions %s\n      fittingGroup {\n        atomNumbers %s\n      }\n    }\n    group2 {\n      atomNumbers %s\n    }\n  }\n}\n"
+                    "harmonic {\n  colvars v0\n  centers (0.6, 0.0, 0.8)\n  forceConstant 2.0\n}" % (ids_str(ids[:2]), refpos_str(r, 1), ids_str(fitg), ids_str(oth2)))
+        elif name == "center1_distancePairs":
+            touched = sorted(set(ids[:2] + oth2))
+            conf = ("colvar {\n  name v0\n  distancePairs {\n    group1 {\n      atomNumbers %s\n      centerToReference on\n      refPositions %s\n    }\n    group2 {\n      atomNumbers %s\n    }\n  }\n}\n"
+                    "harmonic {\n  colvars v0\n  centers (1.0, 2.0, 3.0, 2.5)\n  forceConstant 2.0\n}" % (ids_str(ids[:2]), refpos_str(r, 1), ids_str(oth2)))
         elif name == "center_distancePairs":
             touched = sorted(set(ids[:2] + oth2))
             conf = ("colvar {\n  name v0\n  distancePairs {\n    group1 {\n      atomNumbers %s\n      centerToReference on\n      refPositions %s\n    }\n    group2 {\n      atomNumbers %s\n    }\n  }\n}\n"
@@ -1441,7 +1487,7 @@ def check(run):
     # ---- finite-difference sweep over configurations the model does not cover (a few per kind in the quick tier)
     if True:
         ur = V.rng("C01-unmodelled")
-        ucases = gen_unmodelled(ur, 126 if quick else 6000)
+        ucases = gen_unmodelled(ur, 147 if quick else 6000)
         ures = run_vsim(vsim, ucases)
         for case, res in zip(ucases, ures):
             name = case["name"]
